@@ -503,7 +503,7 @@ def X (c s x y : K) : Xf K := ⟨rotZ c s, ⟨x, y, 0⟩⟩
 def H : List (SV K) := [⟨V3.ez, V3.zero⟩, ⟨V3.zero, V3.ex⟩, ⟨V3.zero, V3.ey⟩]
 def HDot : List (SV K) := [SV.zero, SV.zero, SV.zero]
 /-- documented: rotation about the shared z, translation along F's x and F's y -/
-def docX (c s x y : K) : Xf K := ⟨rotAxis V3.ez c s, V3.add (V3.smul y V3.ex) (V3.smul x V3.ey)⟩
+def docX (c s x y : K) : Xf K := ⟨rotAxis V3.ez c s, V3.add (V3.smul x V3.ex) (V3.smul y V3.ey)⟩
 def fitU (V : SV K) : List K := [V.w.z, V.v.x, V.v.y]
 end Planar
 
